@@ -350,6 +350,12 @@ func (v *SequenceDiagramVisitor) visitEndpointCollection(e *EndpointCollectionEl
 }
 
 func (v *SequenceDiagramVisitor) visitEndpoint(e *EndpointElement) error {
+	// a call whose target does not exist is an error of the model, not a crash
+	if targetApp, ok := v.m.Apps[e.appName]; !ok {
+		return fmt.Errorf("app %#v not found", e.appName)
+	} else if _, ok := targetApp.Endpoints[e.endpointName]; !ok {
+		return fmt.Errorf("endpoint %#v not found in app %#v", e.endpointName, e.appName)
+	}
 	sender := e.sender(v)
 	agent := e.agent(v)
 	app := e.application(v.m)
